@@ -19,7 +19,7 @@ property_meta('C02', level='proof', min_obligations=30,
                            'float accuracy near angle pi / |w| <= eps: bounded stand-in'],
               explanation='regime contracts of the quaternion log in atan atoms; inverse lemmas by normal form over the atom relations')
 
-QREG = ('generic', 'identity', 'nearpi', 'small', 'neg')
+QREG = ('generic', 'identity', 'nearpi', 'halfturn', 'small', 'neg')
 
 
 def so3_log_spec(env, X):
@@ -216,12 +216,13 @@ def float_roundtrip(rng, tier):
     fails = []; evals = 0; samples = []
     def quat(eps):
         ax = [rng.gauss(0, 1) for _ in range(3)]; n = math.sqrt(sum(a * a for a in ax)); ax = [a / n for a in ax]
-        kind = rng.choice(['generic', 'near0', 'nearpi', 'w_eps', 'v_eps', 'neg'])
+        kind = rng.choice(['generic', 'near0', 'nearpi', 'w_eps', 'w_zero', 'v_eps', 'neg'])
         if kind == 'generic': ang = rng.uniform(-math.pi, math.pi)
         elif kind == 'near0': ang = rng.choice([0.0, eps * 0.5, eps * 2, math.sqrt(eps), 1e-5])
         elif kind == 'nearpi': ang = math.pi - rng.choice([0.0, 1e-12, 1e-9, 1e-6, 1e-3])
         elif kind == 'w_eps': ang = math.pi - 2 * rng.choice([eps * 0.3, eps * 0.9, eps * 1.1, eps * 3])
         elif kind == 'v_eps': ang = 2 * rng.choice([eps * 0.3, eps * 0.9, eps * 1.1, eps * 3])
+        elif kind == 'w_zero': return [ax[0], ax[1], ax[2], rng.choice([0.0, -0.0])], kind
         else: ang = rng.uniform(math.pi, 2 * math.pi)
         s, c = math.sin(ang / 2), math.cos(ang / 2)
         return [ax[0] * s, ax[1] * s, ax[2] * s, c], kind
@@ -249,10 +250,10 @@ def float_roundtrip(rng, tier):
                     fails.append(dict(clause='exp_log_same_rotation_scale', signature=sig, err=float((M1[:3, :3] - M0[:3, :3]).abs().max()) / scale_m, q=q))
                 if g in ('SE3', 'Sim3'):
                     tn = float(M0[:3, 3].abs().max())
-                    if tn > 0 and float((M1[:3, 3] - M0[:3, 3]).abs().max()) > tolt * tn and kind not in ('w_eps', 'nearpi'):
+                    if tn > 0 and float((M1[:3, 3] - M0[:3, 3]).abs().max()) > tolt * tn and kind not in ('w_eps', 'w_zero', 'nearpi'):
                         fails.append(dict(clause='exp_log_same_translation', signature=sig, err=float((M1[:3, 3] - M0[:3, 3]).abs().max()) / tn, q=q))
                 li = X.Inv().Log().tensor().double()
-                if kind not in ('nearpi', 'w_eps') and float((li + xt).abs().max()) > tolt * (1 + float(xt.abs().max())):
+                if kind not in ('nearpi', 'w_eps', 'w_zero') and float((li + xt).abs().max()) > tolt * (1 + float(xt.abs().max())):
                     fails.append(dict(clause='log_of_inverse_is_minus_log', signature=sig, err=float((li + xt).abs().max())))
                 if kind in ('generic', 'near0', 'neg', 'v_eps'):
                     d2 = list(data); o = 3 if g in ('SE3', 'Sim3') else 0
@@ -265,6 +266,7 @@ def float_roundtrip(rng, tier):
             probes = []
             if g == 'Sim3':       # directed probes of the corner regimes recorded as known findings (same as C01)
                 probes = [[0.3, -0.2, 0.5, 0.2 * eps, -0.5 * eps, 0.1 * eps, 1.7 * eps], [0.3, -0.2, 0.5, 0, 0.9 * eps, 0, -3.1 * eps],
+                          [-0.03, -0.22, -0.45, 0.4 * eps, -0.35 * eps, 0.8 * eps, -0.875 * eps],
                           [0.3, -0.2, 0.5, 2 * eps, -3 * eps, 1 * eps, 2.5 * eps], [0.3, -0.2, 0.5, 40 * eps, 10 * eps, -20 * eps, 30 * eps]]
             for k in range(N // 2 + len(probes)):
                 from contracts import floatacc as FA
